@@ -64,10 +64,26 @@ def set_mode(m):
     """Switch the implementation's calendar to model mode m ('greg', 'd360', ...)."""
     from metomi.isodatetime.data import CALENDAR
     import oracle
-    spelling = oracle.SPELLING.get(m, m)
-    if CALENDAR.mode != spelling:
-        CALENDAR.set_mode(spelling)
+    if m not in SPELLINGS:
+        spelling = oracle.SPELLING.get(m, m)
+        if CALENDAR.mode != spelling:
+            CALENDAR.set_mode(spelling)
+        _current_mode[0] = m
+        return
+    current = oracle.ALL_SPELLINGS.get(str(CALENDAR.mode).lower())
+    if current != m:
+        # every switch uses the next accepted spelling of the mode (canonical, CF alias, other letter case:
+        # Calendar.set_mode looks the name up case-insensitively and keeps it as given)
+        _switches[0] += 1
+        names = SPELLINGS[m]
+        CALENDAR.set_mode(names[_switches[0] % len(names)])
     _current_mode[0] = m
+
+
+SPELLINGS = {"greg": ["gregorian", "Gregorian", "gregorian", "GREGORIAN"],
+             "d360": ["360day", "360_day", "360Day"], "d365": ["365day", "365_day", "365DAY"],
+             "d366": ["366day", "366_day", "366_Day"]}
+_switches = [0]
 
 
 class Op:
